@@ -41,7 +41,73 @@ func (w *World) newExec(pk *Pkg, fn *ssa.Function, fc *FuncContract) *Exec {
 	return x
 }
 
+// VerifyFunction generates the obligations of fn. If the contract has candidate invariants (`loop K candidate E`),
+// the candidates that are not inductive are sifted out first (Houdini): the candidates' own obligations are solved,
+// every failing one is dropped, and the function is generated again, until all remaining candidates hold. What is
+// left is an ordinary set of invariants, so nothing is assumed that was not proved.
 func (w *World) VerifyFunction(pk *Pkg, fn *ssa.Function, fc *FuncContract) (res *FuncResult) {
+	hasCand := false
+	if fc != nil {
+		for _, ls := range fc.Loops {
+			for _, c := range ls.Invs {
+				if c.Candidate {
+					hasCand = true
+				}
+			}
+		}
+	}
+	if !hasCand {
+		return w.verifyOnce(pk, fn, fc)
+	}
+	// private copy of the contract's loop specifications (the contract is shared by all instantiations)
+	cfc := *fc
+	cfc.Loops = map[int]*LoopSpec{}
+	for k, ls := range fc.Loops {
+		c := *ls
+		c.Dropped = map[int]bool{}
+		cfc.Loops[k] = &c
+	}
+	var dropped []string
+	for iter := 0; iter < 8; iter++ {
+		res = w.verifyOnce(pk, fn, &cfc)
+		if res.Err != "" {
+			break
+		}
+		var cands []*Obligation
+		for _, ob := range res.Obls {
+			if ob.CandIdx > 0 {
+				cands = append(cands, ob)
+			}
+		}
+		if len(cands) == 0 {
+			break
+		}
+		SolveAll(cands, 20, 4, false)
+		changed := false
+		for _, ob := range cands {
+			if ob.Result != nil && ob.Result.Status == "unsat" {
+				ob.Presolved = true
+				continue
+			}
+			ls := cfc.Loops[ob.CandLoop]
+			if !ls.Dropped[ob.CandIdx-1] {
+				ls.Dropped[ob.CandIdx-1] = true
+				dropped = append(dropped, fmt.Sprintf("loop %d: %s", ob.CandLoop, ls.Invs[ob.CandIdx-1].Text))
+				changed = true
+			}
+		}
+		if !changed {
+			break
+		}
+	}
+	sort.Strings(dropped)
+	for _, d := range dropped {
+		res.Notes = append(res.Notes, "candidate invariant not inductive for this code shape, not used: "+d)
+	}
+	return res
+}
+
+func (w *World) verifyOnce(pk *Pkg, fn *ssa.Function, fc *FuncContract) (res *FuncResult) {
 	x := w.newExec(pk, fn, fc)
 	res = &FuncResult{Fn: fn, Name: InstName(fn), Contract: fc, Mode: x.o.M.String(), Exec: x}
 	defer func() {
